@@ -223,6 +223,21 @@ func (c *Ctx) callFacts(call *ssa.Call, o lin.Form) {
 		}
 	case "encoding/hex.EncodedLen":
 		c.add(lin.EQ(o, c.Lin(call.Common().Args[0]).ScaleI(2))...)
+	// documented ranges of the calendar accessors of time.Time
+	case "(time.Time).Nanosecond":
+		c.add(lin.GE0(o), lin.LE(o, lin.K(999999999)))
+	case "(time.Time).Second", "(time.Time).Minute":
+		c.add(lin.GE0(o), lin.LE(o, lin.K(59)))
+	case "(time.Time).Hour":
+		c.add(lin.GE0(o), lin.LE(o, lin.K(23)))
+	case "(time.Time).Day":
+		c.add(lin.GE(o, lin.K(1)), lin.LE(o, lin.K(31)))
+	case "(time.Time).Month":
+		c.add(lin.GE(o, lin.K(1)), lin.LE(o, lin.K(12)))
+	case "(time.Time).YearDay":
+		c.add(lin.GE(o, lin.K(1)), lin.LE(o, lin.K(366)))
+	case "(time.Time).Weekday":
+		c.add(lin.GE0(o), lin.LE(o, lin.K(6)))
 	}
 }
 
